@@ -1,0 +1,17 @@
+//! Verification hooks (only with feature `isographlabs_isograph_verif`): re-exports of the
+//! crate-private request handlers, the LSP state, and the position conversion functions.
+
+pub use crate::diagnostic_notification::verif_hook::iso_diagnostics_to_params;
+pub use crate::format::verif_hook::{format_extraction, get_range_of_extraction};
+pub use crate::format::{char_index_to_position, on_format};
+pub use crate::goto_definition::{on_goto_definition, on_goto_definition_impl};
+pub use crate::hover::verif_hook::{
+    find_iso_literal_extraction_under_cursor, get_index_of_line_char,
+};
+pub use crate::hover::{LineChar, get_iso_literal_extraction_from_text_position_params, on_hover};
+pub use crate::location_utils::isograph_location_to_lsp_location;
+pub use crate::lsp_state::LspState;
+pub use crate::semantic_tokens::verif_hook::{
+    absolutize_relative_token, lsp_tokens_of_parsed_literals,
+};
+pub use crate::semantic_tokens::{delta_line_delta_start, on_semantic_token_full_request};
